@@ -34,6 +34,8 @@ def kst(k):
         return "fn:" + k["fn"]
     if "uneval" in k:
         return "const:" + k["uneval"]
+    if "static" in k:
+        return "static:" + k["static"]
     if "zst" in k:
         return "ZST<%s>" % k["ty"]
     return "?" + str(k)
